@@ -35,7 +35,7 @@ func (v *Violation) Class() string { return v.Property + "/" + v.Invariant + "/"
 // Result is what one simulated run reports.
 type Result struct {
 	// EnumPoints: number of fault points the run passed (fault-point enumeration, VERIF_ENUM)
-	EnumPoints int
+	EnumPoints  int
 	Violation   *Violation
 	Known       []Violation // violations matching a listed known finding (run continued or stopped)
 	Stats       map[string]int64
@@ -76,7 +76,7 @@ type ReplayFile struct {
 	Draws     []choice.Draw `json:"draws"`
 	Trace     []string      `json:"trace"`
 	Shrunk    string        `json:"shrunk"`
-	Known     []string      `json:"known_signatures"` // listed findings in force when the run was recorded
+	Known     []string      `json:"known_signatures"`    // listed findings in force when the run was recorded
 	SeedOnly  bool          `json:"seed_only,omitempty"` // the run is re-created from its seed (a run that crashes the process cannot be shrunk)
 }
 
